@@ -1690,7 +1690,9 @@ func parseCertificate(in *certificate) (*Certificate, error) {
 	out.NotBefore = in.TBSCertificate.Validity.NotBefore
 	out.NotAfter = in.TBSCertificate.Validity.NotAfter
 
-	out.ValidityPeriod = int(out.NotAfter.Sub(out.NotBefore).Seconds())
+	// difference of the Unix times: Time.Sub saturates at about 292 years (time.Duration),
+	// which a notAfter of 99991231235959Z exceeds
+	out.ValidityPeriod = int(out.NotAfter.Unix() - out.NotBefore.Unix())
 
 	out.IssuerUniqueId = in.TBSCertificate.UniqueId
 	out.SubjectUniqueId = in.TBSCertificate.SubjectUniqueId
